@@ -136,6 +136,8 @@ pub enum Shape {
     VarConvert(Src, u8, Src, bool, u8),
     /// `P% of|on|off <based literal> [to] target` (phrase 0 of, 1 on, 2 off): N is the value of the phrase
     PctConvert(u8, u32, Src, bool, u8),
+    /// `A N [to] target`: another operand stands in front of N without an operator (it is added: A + N)
+    Juxtaposed(Src, Src, bool, u8),
 }
 
 #[derive(Clone, Debug, Serialize, Deserialize)]
@@ -170,6 +172,14 @@ pub fn case_line(c: &Case) -> Line {
             l.push(Tok { pre: format!("{}%", p), num: None, post: String::new(), class: Class::Percent, space: 1 });
             l.push(Tok::word(["of", "on", "off"][*ph as usize % 3], Class::Conn));
             l.push(src.tok());
+            if *to {
+                l.push(Tok::word("to", Class::Conn));
+            }
+            l.push(Tok::word(TARGETS[*t as usize % 5].0, Class::Keyword));
+        }
+        Shape::Juxtaposed(a, n, to, t) => {
+            l.push(a.tok());
+            l.push(n.tok());
             if *to {
                 l.push(Tok::word("to", Class::Conn));
             }
@@ -342,6 +352,17 @@ impl Prop for Based {
                     other => acc.fail(format!("expected Number({:?}) got {}", cands, other.brief())),
                 }
             }
+            Shape::Juxtaposed(a, n, _, _) => {
+                kind = "operand-juxtaposed-before-N";
+                nt = true;
+                // the conversion binds to N, the operand in front is added: the VALUE is A + N (in which notation the sum is
+                // shown is not asserted)
+                let e = a.n as f64 + n.n as f64;
+                match &slot {
+                    Slot::Ok { v: V::Num(v, _), .. } if *v == e => {}
+                    other => acc.fail(format!("expected the number {} ({} + {}) got {}", e, a.n, n.n, other.brief())),
+                }
+            }
             Shape::Arith(a, op, b) => {
                 kind = "arithmetic";
                 nt = a.base != 10 || b.base != 10;
@@ -447,6 +468,7 @@ fn case_strategy_default_format() -> impl Strategy<Value = Case> {
             }
             Case { shape: Shape::VarConvert(a, op, b, to, t), glue: 0, num: None }
         }),
+        1 => (src_strategy(false), src_strategy(false), any::<bool>(), 0u8..5).prop_map(|(a, n, to, t)| Case { shape: Shape::Juxtaposed(Src { n: a.n % (1 << 24), pad: 0, ..a }, Src { n: n.n % (1 << 24), pad: 0, ..n }, to, t), glue: 0, num: None }),
         2 => (0u8..3, 0u32..=100, src_strategy(false), any::<bool>(), 0u8..5).prop_map(|(ph, p, src, to, t)| {
             // (a percentage of a number below 2^24 keeps every intermediate value exact enough to know the rounding)
             Case { shape: Shape::PctConvert(ph, p, Src { n: src.n % (1 << 24), ..src }, to, t), glue: 0, num: None }
